@@ -59,7 +59,10 @@ pub fn gen_doc(r: &mut Rng, with_h: bool, mixed_alt: bool) -> CifDoc { gen_doc_i
 
 pub fn gen_doc_ids(r: &mut Rng, with_h: bool, mixed_alt: bool, numeric_ids: bool) -> CifDoc {
     let mut d = CifDoc { name: r.pick(&["1ABC", "test", "4HHB_x", "7"]).to_string(), ..Default::default() };
-    if r.chance(1, 2) { d.cell = Some([r.range(1000, 99_999) * 1000, r.range(1000, 99_999) * 1000, r.range(1000, 99_999) * 1000, 90_000_000, r.range(6000, 12_000) * 10_000, 90_000_000]); }
+    if r.chance(1, 2) {
+        let mut edge = |r: &mut Rng| if r.chance(1, 3) { r.range(100_000, 999_999) * 1000 } else { r.range(1000, 99_999) * 1000 };
+        d.cell = Some([edge(r), edge(r), edge(r), 90_000_000, r.range(6000, 12_000) * 10_000, r.range(100, 35_999) * 10_000]);
+    }
     if r.chance(1, 2) {
         let i = 1 + r.below(230);
         let s = Symmetry::from_index(i).unwrap();
